@@ -238,6 +238,25 @@ func TestC14(t *testing.T) {
 		}
 		preJoined := rng.Intn(2) == 0 // A knows B before the crash => automatic rejoin (join replay) at restart
 		rounds := 1 + rng.Intn(4)/3   // 1/4 of the scenarios restart twice
+		// a fifth of the nodes were upgraded from a release that persisted its network coordinate: their
+		// snapshot starts with lines today's replay skips. They restart twice.
+		legacy := rng.Intn(5) == 0
+		if legacy {
+			rounds = 2
+			head := "clock: 1\n"
+			for k := 1 + rng.Intn(3); k > 0; k-- {
+				head += fmt.Sprintf("coordinate: {\"Vec\":[0.0%d,0,0,0,0,0,0,0],\"Error\":1.5,\"Adjustment\":0,\"Height\":1e-05}\n", k)
+			}
+			// ... followed by what that release went on to record (its clock, once per second)
+			for k := rng.Intn(60); k > 0; k-- {
+				head += fmt.Sprintf("clock: %d\n", 1+k/8)
+			}
+			if err := os.WriteFile(snapPath, []byte(head), 0o644); err != nil {
+				r.Inconclusive("seed snapshot: " + err.Error())
+				return
+			}
+			r.Count("nodes_with_a_snapshot_from_an_older_release", 1)
+		}
 		lbase := []uint64{0, 1, 2, 40, 511, 512, 513, 5000, 1 << 32, 1 << 63, math.MaxUint64 - 200}[rng.Intn(11)]
 		qbase := []uint64{0, 1, 7, 512, 100000, 1 << 40, math.MaxUint64 - 200}[rng.Intn(7)]
 		uniq := 0
